@@ -183,6 +183,31 @@ func owners(g *gspec.GraphSpec, inherited string, out map[string]string) {
 	}
 }
 
+// curSpec is the spec of the case being judged (set by the case functions; one case at a time per process)
+var curSpec *gspec.GraphSpec
+
+// preNodes: body nodes of curSpec that have a (stream) state pre-handler.
+func preNodes(own map[string]string) map[string]bool {
+	out := map[string]bool{}
+	var walk func(g *gspec.GraphSpec)
+	walk = func(g *gspec.GraphSpec) {
+		for i := range g.Nodes {
+			n := &g.Nodes[i]
+			if n.Sub != nil {
+				walk(n.Sub)
+				continue
+			}
+			if (n.Pre || n.StreamPre) && n.Kind != gspec.Passthrough && own[n.Key] != "-" {
+				out[n.Key] = true
+			}
+		}
+	}
+	if curSpec != nil {
+		walk(curSpec)
+	}
+	return out
+}
+
 func judge(rep *mon.Reporter, h *history, own map[string]string, execs []gspec.Exec, states []gspec.StateEvent, wit any, extra string, finalKnown map[int64]int64) bool {
 	h.mu.Lock()
 	ops := append([]op(nil), h.ops...)
@@ -239,7 +264,10 @@ func judge(rep *mon.Reporter, h *history, own map[string]string, execs []gspec.E
 	exit := map[string][]int64{}
 	for _, e := range execs {
 		entry[e.Node] = append(entry[e.Node], e.Seq)
-		exit[e.Node] = append(exit[e.Node], e.EndSeq)
+		if e.Err == "" {
+			// post-handlers follow successful executions only (not the aborted attempt of a node that asked to be interrupted)
+			exit[e.Node] = append(exit[e.Node], e.EndSeq)
+		}
 	}
 	pres, posts := map[string][]int64{}, map[string][]int64{}
 	for _, s := range states {
@@ -249,6 +277,15 @@ func judge(rep *mon.Reporter, h *history, own map[string]string, execs []gspec.E
 		case "post":
 			posts[s.Node] = append(posts[s.Node], s.Seq)
 		}
+	}
+	// a node's pre-handler runs before it: once for every time the node body is entered
+	for n, want := range preNodes(own) {
+		_ = want
+		if len(entry[n]) != len(pres[n]) {
+			rep.Violation(ID+"/handler-count/pre", fmt.Sprintf("node %s has a state pre-handler: its body was entered %d time(s) but the pre-handler ran %d time(s)\n%s", n, len(entry[n]), len(pres[n]), extra), wit)
+			return false
+		}
+		rep.Count("pre_handler_counts_checked", 1)
 	}
 	for n, ps := range pres {
 		for i, p := range ps {
@@ -272,6 +309,7 @@ func judge(rep *mon.Reporter, h *history, own map[string]string, execs []gspec.E
 func specCase(ctx context.Context, rep *mon.Reporter, rng *mon.Rand, cfg mon.Config, spec *gspec.GraphSpec, sample bool) {
 	own := map[string]string{}
 	owners(spec, "-", own)
+	curSpec = spec
 	in := gspec.V{"in": rng.Str(1, 5)}
 	ref := gspec.EvalGraph(spec, in, nil)
 	if ref.Err != "" {
@@ -359,12 +397,33 @@ func specCase(ctx context.Context, rep *mon.Reporter, rng *mon.Rand, cfg mon.Con
 			rep.Sample(map[string]any{"spec": spec, "input": in, "operations": nops})
 		}
 	}
+	runtime.GOMAXPROCS(16)
+	overlapCase(ctx, rep, rng, cfg, spec, r, own, ref, in)
 }
 
 type histKey struct{}
 
 // interruptCase: state and the updates made to it survive interrupt and resume.
+// addReruns marks some stateful Hash nodes as nodes that ask to be interrupted on their first attempt
+// (InterruptAndRerun) and are re-run, after their pre-handler, when the run is resumed.
+func addReruns(r *mon.Rand, g *gspec.GraphSpec) {
+	if g.State {
+		for i := range g.Nodes {
+			n := &g.Nodes[i]
+			if n.Kind == gspec.Hash && n.InputKey == "" && !n.StreamPre && r.Prob(0.35) {
+				n.Pre, n.Rerun, n.Lazy = true, true, false
+			}
+		}
+	}
+	for i := range g.Nodes {
+		if g.Nodes[i].Sub != nil {
+			addReruns(r, g.Nodes[i].Sub)
+		}
+	}
+}
+
 func interruptCase(ctx context.Context, rep *mon.Reporter, rng *mon.Rand, cfg mon.Config, spec *gspec.GraphSpec) {
+	addReruns(rng, spec)
 	own := map[string]string{}
 	owners(spec, "-", own)
 	in := gspec.V{"in": rng.Str(1, 5)}
@@ -382,6 +441,7 @@ func interruptCase(ctx context.Context, rep *mon.Reporter, rng *mon.Rand, cfg mo
 			plan = append(plan, pts[rng.Intn(len(pts))])
 		}
 		ps := gspec.ApplyPlan(spec, plan)
+		curSpec = ps
 		store := gspec.NewByteStore()
 		h := &history{}
 		r, err := gspec.Build(ctx, ps, gspec.BuildOpts{Store: store, OnState: func(c context.Context, kind, node string, st *gspec.St) {
